@@ -96,6 +96,7 @@ void OnlineAverage::update(const double & value)
 //-----------------------------------------------------------------------------
 bool OnlineAverage::isAvailable()const
 {
+  std::lock_guard<std::mutex> lock(mutex_);
   return data_.size() == windowSize_;
 }
 
